@@ -286,8 +286,10 @@ class BufferCursor(Cursor):
     def _eat_regex(self, regex: str | re.Pattern | None) -> None:
         if not regex:
             return
-        while self._matchre_fast(regex):
-            pass
+        # note: a match of the empty string eats nothing, and would match again
+        pos = self.pos
+        while self._matchre_fast(regex) and self.pos > pos:
+            pos = self.pos
 
     def _eat_regex_list(self, regex: str | re.Pattern | None) -> list[str]:
         if not regex:
@@ -547,9 +549,12 @@ class Buffer(Text):
     def _eat_regex(self, regex: str | re.Pattern | None) -> bool:
         if not regex:
             return False
+        # note: a match of the empty string eats nothing, and would match again
         seen = False
-        while self._matchre_fast(regex):
+        pos = self.pos
+        while self._matchre_fast(regex) and self.pos > pos:
             seen = True
+            pos = self.pos
         return seen
 
     def _eat_regex_list(self, regex: str | re.Pattern | None) -> list[str]:
